@@ -87,6 +87,15 @@ Example bad_misc :
   wf_proto (Proto [opCreateABx 6 0 0; w_return] [1] 1 [] 0 0 0 2 2) = true.
 Proof. vm_compute. repeat split; reflexivity. Qed.
 
+(* seeded regression C07-2: the block-number word after an extended SETLIST walked by patchCode as
+   `MOVE 0 0` and re-coded as the head of a MOVEN group (opcode bits set): not a block number *)
+Example bad_setlist_recoded :
+  wf_proto (Proto [opCreateABC 13 0 0 0; opCreateABC 37 0 0 0; opSetArgC (opSetOpCode 512 1) 1; opCreateABC 0 1 0 0; w_return]
+                  [] 0 [] 0 0 0 2 5) = false /\
+  wf_proto (Proto [opCreateABC 13 0 0 0; opCreateABC 37 0 0 0; 512; opCreateABC 0 1 0 0; w_return]
+                  [] 0 [] 0 0 0 2 5) = true.
+Proof. vm_compute. split; reflexivity. Qed.
+
 (* codec: the hypotheses of codec_roundtrip are satisfiable by boundary fields *)
 Example codec_ex :
   opCreateABC 41 255 511 511 = 2818572287 /\ opGetOpCode 2818572287 = 41 /\ opGetArgC 2818572287 = 511 /\
